@@ -94,6 +94,18 @@ def run(ctx):
             client = rng.choice([0, 0, 0x02000900, 0xFFFFFFFF, 0x0000BEEF])      # generator id at 0x0C: any value is conformant
             ss = P1.SpecSet1(files, nv, comment, client=client)
             arc = ss.archive("arc")
+            # some volumes of the foreign set are missing, truncated or belong to another set (what is left decides the capacity)
+            vkind = {}
+            for v_ in range(1, nv + 1):
+                r_ = rng.random()
+                pth_ = D + "/arc.p%02d" % v_
+                if r_ < 0.15:
+                    del arc[pth_]; vkind[v_] = "deleted"
+                elif r_ < 0.25:
+                    arc[pth_] = arc[pth_][:rng.randrange(20, len(arc[pth_]))]; vkind[v_] = "truncated"
+                elif r_ < 0.32:
+                    arc[pth_] = P1.SpecSet1([("zz", b"other set", True)], 1).volume(1); vkind[v_] = "foreign"
+            nv_all, nv = nv, nv - len(vkind)
             saved_files = [(n, d) for n, d, s in files if s]
             unsaved = [(n, d) for n, d, s in files if not s]
             # damage among the saved files, within and beyond capacity
@@ -107,6 +119,8 @@ def run(ctx):
                     fs[D + "/" + P1.to_go(n)] = b"something else"
             fs.update(arc)
             kind = "plain" if mask is None else "non-saved entries %s" % "".join("n" if m_ else "s" for m_ in mask)
+            if vkind:
+                kind += " volumes " + ",".join("%d:%s" % kv for kv in sorted(vkind.items()))
             cases.append({"files": files, "saved": saved_files, "lost": lost, "nv": nv, "fs": fs, "kind": kind, "comment": len(comment),
                           "vline": P1.line_verify("mem", D + "/arc.par", True, fs),
                           "rline": P1.line_repair("mem" if rng.random() < 0.7 else "real", D + "/arc.par", rng.random() < 0.5, fs, dirs=[D])})
